@@ -1,6 +1,7 @@
 package chainsim
 
 import (
+	"encoding/binary"
 	"bytes"
 	"fmt"
 	"path/filepath"
@@ -39,7 +40,46 @@ const (
 	scriptBadPre = 5
 	scriptNoRaw  = 6
 	scriptEmpty  = 7 // asks ds 1 eid 1; execute returns zero bytes -> SUCCESS with an empty result
+	scriptProbe  = 8 // asks ds 1 eid 1; execute asks the status of (eid 1, validator index ask_count+delta), delta = the calldata's
+	// 8 little-endian bytes, then returns "test": SUCCESS when the index names a requested validator, FAILURE otherwise
 )
+
+// probeIndex is the validator index scriptProbe asks about.
+func probeDelta(calldata []byte) (int64, bool) {
+	if len(calldata) != 8 {
+		return 0, false
+	}
+	return int64(binary.LittleEndian.Uint64(calldata)), true
+}
+
+var watProbe = `
+(module
+	(type $t0 (func))
+	(type $t1 (func (param i64 i64 i64 i64)))
+	(type $t2 (func (param i64 i64)))
+	(type $t3 (func (result i64)))
+	(type $t4 (func (param i64 i64) (result i64)))
+	(type $t5 (func (param i64) (result i64)))
+	(import "env" "ask_external_data" (func $ask_external_data (type $t1)))
+	(import "env" "set_return_data" (func $set_return_data (type $t2)))
+	(import "env" "get_ask_count" (func $get_ask_count (type $t3)))
+	(import "env" "get_external_data_status" (func $get_external_data_status (type $t4)))
+	(import "env" "read_calldata" (func $read_calldata (type $t5)))
+	(func $prepare (export "prepare") (type $t0)
+	  i64.const 1
+	  i64.const 1
+	  i64.const 1024
+	  i64.const 4
+	  call $ask_external_data)
+	(func $execute (export "execute") (type $t0)
+	  (drop (call $read_calldata (i64.const 2048)))
+	  (drop (call $get_external_data_status (i64.const 1) (i64.add (call $get_ask_count) (i64.load (i32.const 2048)))))
+	  i64.const 1024
+	  i64.const 4
+	  call $set_return_data)
+	(memory $memory (export "memory") 17)
+	(data (i32.const 1024) "test"))`
+
 
 var watEmptyReturn = `
 (module
@@ -106,7 +146,7 @@ func compiledOracleScripts() [][]byte {
 			}
 			return b
 		}
-		for _, code := range [][]byte{testdata.Wasm1, testdata.Wasm4, w2w(watNoReturn), w2w(watTrap), testdata.Wasm2, testdata.Wasm3, w2w(watEmptyReturn)} {
+		for _, code := range [][]byte{testdata.Wasm1, testdata.Wasm4, w2w(watNoReturn), w2w(watTrap), testdata.Wasm2, testdata.Wasm3, w2w(watEmptyReturn), w2w(watProbe)} {
 			compiledScripts = append(compiledScripts, testdata.Compile(code))
 		}
 	})
@@ -303,6 +343,11 @@ func (a *OracleActor) newRequest(e *Env) {
 			ids[0] = int64(a.NumDS + 5)
 		}
 		calldata = obi.MustEncode(testdata.Wasm4Input{IDs: ids, Calldata: "cd"})
+	case scriptProbe:
+		// the index asked about: the last requested validator, one past it, two past it, -1 (for ask 1: index 0-2), a huge one
+		d := []int64{-1, 0, 1, -2, 1<<62}[e.Ch.Weighted("oracle.req.probe", []int{30, 40, 10, 10, 10})]
+		calldata = binary.LittleEndian.AppendUint64(nil, uint64(d))
+		e.St.Fault("script_asks_validator_index_at_or_past_ask_count")
 	default:
 		calldata = []byte("x")
 	}
@@ -361,7 +406,7 @@ func (a *OracleActor) costOf(script int, calldata []byte, ask uint64) sdk.Coins 
 		}
 	case scriptSimple:
 		ids = []int64{1, 2, 3}
-	case scriptNoRet, scriptTrap, scriptEmpty:
+	case scriptNoRet, scriptTrap, scriptEmpty, scriptProbe:
 		ids = []int64{1}
 	}
 	cost := sdk.NewCoins()
